@@ -1187,6 +1187,6 @@ _run_flows = run
 def run(chk):
     _run_flows(chk)
     from . import growth_assetrepo
-    growth_assetrepo.section(chk, 2, 6 if chk.tier == "quick" else 8)
+    common.growth(chk, "AssetRepo", growth_assetrepo.section, 2, 6 if chk.tier == "quick" else 8)
     chk.cov["rule"] += ("  AssetRepo: every edge of the bounded model (create permanent/one-shot asset, clock, requests through asset and "
                         "other caps with good/bad id parameters) replayed into HTTPAssetRepo with a virtual clock.")
